@@ -518,14 +518,8 @@ Fixpoint build_bindings (sc : scopes) (binds : list bitem) (params : vars) : var
     (p, es1 ++ es2)
   end.
 
-(* actOnEndBuildDecl *)
-Definition end_build (wd : bytes) (sc : scopes) (pools : list (bytes * N))
-           (rname : bytes) (rule : vars) (outs ex im oo : list node) (params : vars) : command * list err :=
-  let look := lookup_named (screens ex) (screens outs) params rule sc in
-  let '(v_command, e1) := look nm_command in
-  let '(v_desc, e2) := look nm_description in
-  let '(v_deps, e3) := look nm_deps in
-  let '(v_depfile, e4) := look nm_depfile in
+(* the `deps` / `depfile` logic of actOnEndBuildDecl: (style, depsFile, errors) *)
+Definition deps_of (v_deps v_depfile : bytes) : deps_style * bytes * list err :=
   let '(style, e5) :=
     if is_nil v_deps then ((if is_nil v_depfile then DepsNone else DepsGCC), [])
     else if bytes_eqb v_deps nm_gcc then (DepsGCC, [])
@@ -535,22 +529,40 @@ Definition end_build (wd : bytes) (sc : scopes) (pools : list (bytes * N))
   let '(depfile, e6) :=
     if negb (is_nil v_depfile) then (if is_gcc then (v_depfile, []) else ([], [EDepfileWithStyle]))
     else (if is_gcc then ([], [EMissingDepfile]) else ([], [])) in
-  let '(v_pool, e7) := look nm_pool in
-  let '(pool, e8) :=
-    if is_nil v_pool then (None, [])
-    else match aget v_pool pools with Some _ => (Some v_pool, []) | None => (None, [EUnknownPool v_pool]) end in
-  let '(v_gen, e9) := look nm_generator in
-  let '(v_restat, e10) := look nm_restat in
-  let '(v_rsp, e11) := look nm_rspfile in
-  let '(rsp, content, e12) :=
-    if is_nil v_rsp then ([], [], [])
-    else match normalize_path wd v_rsp with
-         | None => ([], [], [])
-         | Some n => let '(c, e) := look nm_rspfile_content in (n, c, e)
-         end in
-  (mkCmd rname outs ex im oo params v_command v_desc style depfile pool
-         (negb (is_nil v_gen)) (negb (is_nil v_restat)) rsp content,
-   e1 ++ e2 ++ e3 ++ e4 ++ e5 ++ e6 ++ e7 ++ e8 ++ e9 ++ e10 ++ e11 ++ e12).
+  (style, depfile, e5 ++ e6).
+
+Definition pool_of (pools : list (bytes * N)) (v_pool : bytes) : option bytes * list err :=
+  if is_nil v_pool then (None, [])
+  else match aget v_pool pools with Some _ => (Some v_pool, []) | None => (None, [EUnknownPool v_pool]) end.
+
+(* the response-file tail of actOnEndBuildDecl: (rspFile, rspFileContent, errors); rspfile_content is looked up
+   only when the rspfile value is non-empty and normalises *)
+Definition rsp_of (wd : bytes) (v_rsp : bytes) (content : bytes * list err) : bytes * bytes * list err :=
+  if is_nil v_rsp then ([], [], [])
+  else match normalize_path wd v_rsp with
+       | None => ([], [], [])
+       | Some n => (n, fst content, snd content)
+       end.
+
+(* actOnEndBuildDecl *)
+Definition end_build (wd : bytes) (sc : scopes) (pools : list (bytes * N))
+           (rname : bytes) (rule : vars) (outs ex im oo : list node) (params : vars) : command * list err :=
+  let look := lookup_named (screens ex) (screens outs) params rule sc in
+  let r_command := look nm_command in
+  let r_desc := look nm_description in
+  let r_deps := look nm_deps in
+  let r_depfile := look nm_depfile in
+  let d := deps_of (fst r_deps) (fst r_depfile) in
+  let r_pool := look nm_pool in
+  let p := pool_of pools (fst r_pool) in
+  let r_gen := look nm_generator in
+  let r_restat := look nm_restat in
+  let r_rsp := look nm_rspfile in
+  let rs := rsp_of wd (fst r_rsp) (look nm_rspfile_content) in
+  (mkCmd rname outs ex im oo params (fst r_command) (fst r_desc) (fst (fst d)) (snd (fst d)) (fst p)
+         (negb (is_nil (fst r_gen))) (negb (is_nil (fst r_restat))) (fst (fst rs)) (snd (fst rs)),
+   snd r_command ++ snd r_desc ++ snd r_deps ++ snd r_depfile ++ snd d ++ snd r_pool ++ snd p ++
+   snd r_gen ++ snd r_restat ++ snd r_rsp ++ snd rs).
 
 (* actOnBeginBuildDecl + the bindings + actOnEndBuildDecl *)
 Definition run_build (wd : bytes) (sc : scopes) (st : mstate)
